@@ -179,6 +179,66 @@ def run(world, rep, tier, only=None):
                bool(firstw) and all(main.dominated_by(n, prs) for n in firstw),
                "PRS dominates all %d write-capable calls of main" % len(firstw))
 
+    # ------------------------------------------------------------------ C07.g a configuration is refused after the last thing that can change it
+    # PRS() assembles the feature set from the profile, -O, -E and defaults, and refuses combinations that cannot be
+    # built.  A refusal is only worth something if nothing later in PRS() switches one of the tested features on again:
+    # for every test of ext2fs_has_feature_X() one of whose outcomes ends in exit(), no call that (itself or one level
+    # down) performs ext2fs_set_feature_X() is reachable from the test.
+    prsf = prog.fn("PRS", MK)
+    import re as _re
+    noret = prog.noreturn_nodes(prsf)
+
+    def setters_of(f, feat, depth=1):
+        out = []
+        for c in f.call_nodes():
+            nm = c.ev["x"].get("fn")
+            if nm == "ext2fs_set_feature_" + feat:
+                out.append(c)
+            elif depth > 0 and nm:
+                for g in prog.callees(f, c.ev["x"], weak=False):
+                    if g.file == MK and any(x.ev["x"].get("fn") == "ext2fs_set_feature_" + feat for x in g.call_nodes()):
+                        out.append(c)
+                        break
+        return out
+    n_ref = 0
+    for b in sorted(prsf.blocks):
+        lit = prsf.literal(b)
+        if not lit:
+            continue
+        feats = {cc.get("fn")[len("ext2fs_has_feature_"):] for cc in T.calls(lit[0]) if (cc.get("fn") or "").startswith("ext2fs_has_feature_")}
+        if not feats:
+            continue
+        end_ = prsf.block_end(b)
+        # a refusal: on the edge where the feature is present, exit() is reached without another branch deciding otherwise
+        pres = [m for (m, si) in prsf.succ(end_) if (si == 0) == lit[1]]
+        refuses = False
+        for m in pres:
+            seen, cur = 0, m
+            while cur is not None and seen < 12:
+                if cur in noret:
+                    refuses = True
+                    break
+                nx = prsf.succ(cur)
+                if len(nx) != 1:
+                    # a further operand of the same condition (A && B): follow its "holds" edge once
+                    l2 = prsf.literal(cur.bid) if cur is prsf.block_end(cur.bid) else None
+                    if l2 and any((cc.get("fn") or "").startswith("ext2fs_has_feature_") for cc in T.calls(l2[0])):
+                        feats |= {cc.get("fn")[len("ext2fs_has_feature_"):] for cc in T.calls(l2[0]) if (cc.get("fn") or "").startswith("ext2fs_has_feature_")}
+                        cur = [x for (x, si) in nx if (si == 0) == l2[1]][0]
+                        seen += 1
+                        continue
+                    break
+                cur = nx[0][0]
+                seen += 1
+        if not refuses:
+            continue
+        n_ref += 1
+        after = prsf.reach(prsf.after(end_))
+        late = sorted({(ft, c.line) for ft in feats for c in setters_of(prsf, ft) if c in after})
+        rep.ob("C07.g", site(prsf, "refusal at line %d is final" % end_.line), not late,
+               "no call reachable from the refusing test of %s sets one of those features again: %s" % (sorted(feats), late))
+    rep.floor("C07.g refusing feature tests in PRS", n_ref, 5)
+
     # ------------------------------------------------------------------ C07.d sources of non-determinism
     reach = _reachable(prog, main)
     n_time = 0
